@@ -497,7 +497,7 @@ except KeyError:
     raise KeyError
 ''', 'V_k = V_fac(V_sel)', 'return (V_cfg, V_k, V_mix)'],
              binding={'V_cfg': ps[0], 'V_field': ps[1], 'V_fac': ps[2]},
-             under=['len(V_split) == 1', "V_sel == 'custom'"])
+             under=['len(V_split) == 1', 'len(V_split) > 1', 'len(V_split) >= 2', 'len(V_split) < 2', "V_sel == 'custom'"])
         # 'a+b+base': the base class is the LAST component, the mixins are the others in the order written (the order is
         # the method resolution order of the class that is built)
         fl = mkflow(ix, site)
